@@ -91,6 +91,8 @@ type Exec struct {
 	freeVals map[string]Val // closure free variable name -> pointer value
 	curCall  *ssa.CallCommon
 	tailPaths int
+	recName  string
+	recRegs  []string
 }
 
 func (x *Exec) cellKey(a *ssa.Alloc) string {
